@@ -195,7 +195,13 @@ def load_known(pid):
         return []
     with open(p) as f:
         d = json.load(f)
-    return [e for e in d.get("findings", []) if e.get("property") == pid]
+    out = [e for e in d.get("findings", []) if e.get("property") == pid]
+    # harness authors test proposed entries with VERIF_KNOWN_EXTRA=<file>; never set by MANIFEST commands
+    x = os.environ.get("VERIF_KNOWN_EXTRA")
+    if x and os.path.exists(x):
+        with open(x) as f:
+            out += [e for e in json.load(f).get("findings", []) if e.get("property") == pid]
+    return out
 
 
 def merge(cfg, tier, results, seed, wall):
